@@ -93,6 +93,14 @@ def bindings_text():
 # ------------------------------------------------------------------------------------------
 # world
 
+def py_name(scn, fid):
+    """Python-level name of a generated callable.  Unique per scenario (a process-wide cache keyed by function name inside
+    the system under test must not couple one scenario to the next: a run is a function of its seed alone); several
+    callables of ONE scenario may deliberately share a name via spec['pyname'] (redefinitions, closures of a factory)."""
+    spec = scn["fns"][fid]
+    return f"{spec.get('pyname', fid)}_{scn.get('seed', 0) % 1000003}"
+
+
 class World:
     def __init__(self, scn, interp):
         self.scn = scn
@@ -192,14 +200,15 @@ class World:
             ret = " -> _A_ret"
         names = [p[0] for p in params]
         argdict = "dict(" + ", ".join(f"{n}={n}" for n in names) + ")"
+        pyname = py_name(self.scn, fid)
         if kind in ("fn", "gen"):
             if kind == "fn":
                 body = f"    return _I.body({fid!r}, {argdict})\n"
             else:
                 body = f"    for _seg in _I.gen_body({fid!r}, {argdict}):\n        yield _seg\n"
-            src = f"def {fid}({', '.join(sig)}){ret}:\n{body}"
+            src = f"def {pyname}({', '.join(sig)}){ret}:\n{body}"
             exec(src, ns)
-            f = ns[fid]
+            f = ns[pyname]
             f.__module__ = "simworld"
             return self._decorate(spec, f)
         if kind in ("method", "cm_outer", "cm_inner", "sm_outer"):
@@ -210,7 +219,7 @@ class World:
             exec(src, ns)
             f = ns["m"]
             f.__module__ = "simworld"
-            f.__qualname__ = f"K_{fid}.m"
+            f.__qualname__ = f"K_{pyname}.m"
             if kind == "method":
                 m = self._decorate(spec, f)
             elif kind == "cm_outer":
@@ -219,18 +228,18 @@ class World:
                 m = classmethod(self._decorate(spec, f))
             else:
                 m = self._decorate(spec, staticmethod(f))
-            K = type(f"K_{fid}", (), {"m": m, "__repr__": lambda self: f"K_{fid}()", "__module__": "simworld"})
+            K = type(f"K_{pyname}", (), {"m": m, "__repr__": lambda self: f"K_{fid}()", "__module__": "simworld"})
             return K
         if kind == "dc":
             fields = "".join(f"    {s if ':' in s else s + ': object'}\n" for s in sig) or "    pass\n"
             selfdict = "dict(" + ", ".join(f"{n}=self.{n}" for n in names) + ")"
             src = (
-                f"@dataclasses.dataclass\nclass {fid}:\n{fields}"
+                f"@dataclasses.dataclass\nclass {pyname}:\n{fields}"
                 f"    def __post_init__(self):\n        _I.body({fid!r}, {selfdict})\n"
                 f"    def __repr__(self):\n        return '{fid}(...)'\n"
             )
             exec(src, ns)
-            cls = ns[fid]
+            cls = ns[pyname]
             cls.__module__ = "simworld"
             return self._decorate(spec, cls)
         raise HarnessError(kind)
